@@ -31,7 +31,7 @@ Proof.
       apply acyclic_flat. intros x v y w [E | []] _. inversion E. reflexivity.
     - vm_compute. reflexivity. }
   split.
-  { intros _ _. unfold H_elim. cbn [o_elim].
+  { intros _ _. unfold H_elim. cbn [o_elim]. split; [vm_compute; reflexivity |].
     match goal with |- acyclic ?d =>
       assert (E0 : d = [(2%positive, Sym 1%positive)]) by (vm_compute; reflexivity); rewrite E0 end.
     apply acyclic_flat. intros x v y w [E | []] L. inversion E. subst.
@@ -49,7 +49,7 @@ Proof.
   unfold passes15, o_ex. cbn [run_ok o_rpe o_rce o_eca o_rpv o_rcv o_da elim_on o_elim o_allow_der].
   split; [intro; discriminate |]. split; [intro; discriminate |].
   split; [intros _ _; exact I |]. split; [intros _ _; exact I |].
-  split; [intros _ _; exact I |]. split; [intros _ _; exact I |].
+  split; [intros _ _; exact I |]. split; [intros _ _; vm_compute; reflexivity |].
   split; [| exact I].
   intros _ _. split; [| split].
   - match goal with |- relinv _ ?R => assert (E0 : R = []) by (vm_compute; reflexivity); rewrite E0 end.
